@@ -17,8 +17,8 @@ import (
 
 	"verif/explore"
 	"verif/gen"
-	"verif/refsfnt"
 	"verif/refcmap"
+	"verif/refsfnt"
 	"verif/refshape"
 	"verif/run"
 )
